@@ -129,6 +129,58 @@ func c12Behaviour(c *Ctx, idx, bi int, cr *CaseResult) bool {
 		}
 		cur = l2
 	}
+	// a rule is removed from the library AFTER it has been stored once: the next store must
+	// write the knowledge base as it is now
+	if len(prog.Rules) > 1 {
+		vr := c.Rng(idx, 4000+bi)
+		victim := prog.Rules[vr.Intn(len(prog.Rules))].Name
+		if vr.Intn(2) == 0 {
+			lib.RemoveRuleEntry(victim, kbName, kbVer)
+		} else {
+			lib.GetKnowledgeBase(kbName, kbVer).RemoveRuleEntry(victim)
+		}
+		removed := map[string]bool{victim: true}
+		var b bytes.Buffer
+		if err := lib.StoreKnowledgeBaseToWriter(&b, kbName, kbVer); err != nil {
+			cr.violate(fmt.Sprintf("store after removing rule %s failed: %v", victim, err), map[string]interface{}{"grl": text})
+			return false
+		}
+		l3, err, pn := loadVia("plain", b.Bytes())
+		cr.Evals++
+		if err != nil || pn != nil {
+			cr.violate(fmt.Sprintf("the stream stored after removing rule %s does not load: err=%v panic=%v", victim, err, pn), map[string]interface{}{"grl": text})
+			return false
+		}
+		inst, err := l3.NewKnowledgeBaseInstance(kbName, kbVer)
+		if err != nil {
+			cr.violate(fmt.Sprintf("no instance of the knowledge base stored after removing rule %s and loaded again: %v", victim, err), map[string]interface{}{"grl": text})
+			return false
+		}
+		init := GenState(c.Rng(idx, 5000+bi))
+		cfg := RunCfg{MaxCycle: 12}
+		res := Run(inst, prog, CopyStateLive(init), cfg)
+		cr.Evals++
+		a := Analyze(prog, res, cfg, removed)
+		var vs []Violation
+		if res.Panic != nil {
+			vs = append(vs, Violation{"C12", 0, "", fmt.Sprintf("panic: %v", res.Panic)})
+		}
+		for _, ci := range a.Cycles {
+			if len(ci.Evals[victim]) > 0 || (len(ci.SetRules) > 0 && ci.SetRules[0] == victim) {
+				vs = append(vs, Violation{"C12", ci.N, victim, "the rule was removed before the knowledge base was stored, but it is evaluated / fired in the loaded one"})
+				break
+			}
+		}
+		vs = append(vs, MonFiresOnlyWhenTrue(a)...)
+		vs = append(vs, MonCandidatesComplete(a)...)
+		vs = append(vs, MonMaxSalience(a)...)
+		vs = append(vs, MonReplayEqual(a)...)
+		if len(vs) > 0 {
+			cr.violate(fmt.Sprintf("knowledge base stored after removing rule %s: an instance of the loaded one does not behave like the remaining rules: %s", victim, joinViol(vs[:min(2, len(vs))])), caseDetail(text, "grb", init, res, vs))
+			return false
+		}
+		cr.inc("store_after_removal_runs")
+	}
 	return true
 }
 
